@@ -362,6 +362,25 @@ fn binary(u: &mut Unstructured, ctx: &mut Ctx) -> CheckResult {
             if boolean(u) {
                 be.insert(0, byte(u) % 2);
             }
+            // the byte string of a bignum has no length limit; only its value is bounded
+            match byte(u) % 8 {
+                0 => {
+                    let gap = range_usize(u, 0, 40);
+                    let hi = byte(u);
+                    let mut v = vec![hi];
+                    v.extend(std::iter::repeat(0u8).take(gap));
+                    v.extend_from_slice(&be);
+                    be = v;
+                    ctx.class("binary:bignum-long");
+                }
+                1 => {
+                    let mut v = vec![0u8; range_usize(u, 5, 40)];
+                    v.extend_from_slice(&be);
+                    be = v;
+                    ctx.class("binary:bignum-long");
+                }
+                _ => {}
+            }
             let v = BigUint::from_bytes_be(&be);
             (M::tag(2, M::Bytes(be)), Some(BigInt::from(v)))
         }
